@@ -207,6 +207,21 @@ def judge(res, cs, cr):
         res.sample({'kind': kind, 'constituents': {it['alias']: it['def'] for it in list(items.values())[:6]}, 'document_items': len(doc1.get('items', []))}, limit=1)
 
 
+def witness_cases():
+    """the two recorded findings (known_findings.json), reproduced from their witnesses in every run: they are reported as
+    KNOWN-FINDING whatever the random part of the workload happens to reach"""
+    m = 'm'
+    head = [{'op': 'env.processor', 'mode': 'default'}, {'op': 'form.seed', 'seed': 1}, {'op': 'model.op', 'm': m, 'k': 'new'}]
+    snap = {'op': 'model.snap', 'm': m, 'json': True}
+    keys = head + [{'op': 'model.op', 'm': m, 'k': 'emplace', 'type': 'basic'},
+                   {'op': 'model.op', 'm': m, 'k': 'settext', 'uid': {'idx': 0}, 'texts': {'5': 'n5'}}, snap]
+    nodata = head + [{'op': 'model.op', 'm': m, 'k': 'emplace', 'type': 'basic'},
+                     {'op': 'model.op', 'm': m, 'k': 'emplace', 'type': 'structure', 'def': 'ℬ(X2×ℬ(X1))'},
+                     {'op': 'model.op', 'm': m, 'k': 'resetdata', 'uid': {'made': -1}},
+                     {'op': 'model.op', 'm': m, 'k': 'emplace', 'type': 'basic'}, snap]
+    return [core.case(keys, kind='model'), core.case(nodata, kind='model')]
+
+
 def run_shard(desc, env):
     res = core.ShardResult()
     rnd = env.rng('c10', desc['kind'], desc['i'])
@@ -215,6 +230,8 @@ def run_shard(desc, env):
         cases = [form_case(rnd, desc['i'] * 100000 + k) for k in range(n)]
     else:
         cases = [(rich_model_case if k % 3 == 2 else model_case)(rnd, desc['i'] * 100000 + k) for k in range(n)]
+        if desc['i'] == 0:
+            cases = witness_cases() + cases
     for cs, cr in env.execute(cases, chunk=20):
         judge(res, cs, cr)
     return res
